@@ -1,6 +1,7 @@
 """C14 - note sections and segments yield every note exactly once; stabs."""
 from symx.api import H
 from spec import enc
+from harness.elfkit import stream_length
 from spec import registry as REG
 
 PROPERTY = 'C14'
@@ -20,6 +21,7 @@ class _Elf:
     def __init__(self, ctx, stream, little, elfclass, core=False, machine='EM_X86_64'):
         S = ctx.lib('elf.structs')
         self.stream = stream
+        self.stream_len = stream_length(stream)
         self.little_endian = little
         self.elfclass = elfclass
         self.structs = S.ELFStructs(little_endian=little, elfclass=elfclass)
